@@ -9,7 +9,7 @@ import datetime
 import hashlib
 import logging
 from pathlib import Path
-from typing import cast, AbstractSet, ClassVar, Optional, NamedTuple
+from typing import cast, AbstractSet, ClassVar, Optional, NamedTuple, TYPE_CHECKING
 
 import flask
 import sqlalchemy as sa
@@ -27,6 +27,9 @@ from .blob import Blob
 from .db import db
 from .mediafile import MediaFile
 from .mixin import ModelMixin
+
+if TYPE_CHECKING:
+    from .period import Period
 
 class TrackSummary(NamedTuple):
     content_type: str
@@ -51,6 +54,10 @@ class Stream(ModelMixin["Stream"], Base):
     marlin_la_url: Mapped[str | None] = mapped_column(sa.String(), nullable=True)
     playready_la_url: Mapped[str | None] = mapped_column(sa.String(), nullable=True)
     media_files: Mapped[list[MediaFile]] = relationship('MediaFile', cascade="all, delete")
+    # the periods of multi-period streams that play this stream. They cannot
+    # be presented without it, so they are deleted together with the stream
+    periods: Mapped[list["Period"]] = relationship(
+        'Period', back_populates='stream', cascade="all, delete")
     timing_ref: Mapped[JsonObject | None] = mapped_column(
         'timing_reference',
         sqlalchemy_jsonfield.JSONField(
